@@ -328,4 +328,106 @@ impl<S: Storage> Replica<S> {
         self.taskdb.all_task_uuids()
     }
 //@end
+
+//@props C19 C18
+//@extract src/replica.rs :: impl<S: Storage> Replica<S> :: fn dependency_map | R29map
+    #[verifier::loop_isolation(false)]
+    pub fn dependency_map(&mut self, force: bool) -> (r: Result<Arc<DependencyMap>>)
+        ensures final(self).sv() == old(self).sv(),
+            //@ob C19 Replica::dependency_map.a-freshly-built-map-has-exactly-the-edges-(task-in-the-working-set,-pending-task-named-by-one-of-its-dep_-keys)
+            r matches Ok(dm) ==> (force || old(self).depmap is None) ==> dm_sound(old(self).sv().ws, old(self).sv().tasks, dm.edges@)
+                && forall|i: int, k: Seq<char>, e: (Uuid, Uuid)| #[trigger] dep_edge_at(old(self).sv().ws, old(self).sv().tasks, i, k, e) ==> dm.edges@.contains(e),
+            //@ob C19 Replica::dependency_map.otherwise-the-cached-map-is-returned,-and-the-map-returned-is-the-one-kept
+            r matches Ok(dm) ==> final(self).depmap == Some(dm) && (!force && old(self).depmap is Some ==> old(self).depmap == Some(dm)),
+{
+        let ghost t0 = self.taskdb.storage.view().tasks;
+        let ghost w0 = self.taskdb.storage.view().ws;
+        if force || self.depmap.is_none() {
+            let mut dm = DependencyMap::new();
+            let mut is_pending_cache: HashMap<Uuid, bool> = HashMap::new();
+            let ws = self.working_set()?;
+            proof { assert(ws.by_index@ == w0); assert(dm_complete(w0, t0, dm.edges@, 1, no_keys(), 0)); }
+            for i in it_i: 1..=ws.largest_index()
+                invariant
+                    self.sv() == old(self).sv(), ws.by_index@ == w0,
+                    dm_sound(w0, t0, dm.edges@), dm_complete(w0, t0, dm.edges@, 1 + it_i.index(), no_keys(), 0), cache_ok(t0, is_pending_cache@),
+                    i == 1 + it_i.index(), it_i.seq().len() == (if w0.len() == 0 { 0 } else { w0.len() - 1 }),
+            {
+                let ghost ii = i as int;
+                let ghost e0 = dm.edges@;
+                if let Some(u) = ws.by_index(i) {
+                    if let Some(taskmap) = self.taskdb.get_task(u)? {
+                        for p in it_p: taskmap.keys()
+                            invariant
+                                self.sv() == old(self).sv(), ws.by_index@ == w0, ii == i, 1 <= ii < w0.len(), w0[ii] == Some(u),
+                                t0.dom().contains(u) && taskmap@ == t0[u], keys_listed(taskmap@, it_p.seq()),
+                                dm_sound(w0, t0, dm.edges@), dm_complete(w0, t0, dm.edges@, ii, it_p.seq(), it_p.index() as int), cache_ok(t0, is_pending_cache@),
+                        {
+                            let ghost jj = it_p.index() as int;
+                            let ghost e1 = dm.edges@;
+                            let ghost kk = p.s@;
+                            proof { assert(it_p.seq()[jj] == p); }
+                            if let Some(dep_str) = p.strip_prefix("dep_") {
+                                if let Ok(dep) = Uuid::parse_str(dep_str) {
+                                    proof { assert(dep_target(kk) == Some(dep)); }
+                                    let dep_pending = {
+                                        if let Some(dep_pending) = is_pending_cache.get(&dep) {
+                                            *dep_pending
+                                        } else if let Some(dep_taskmap) =
+                                            self.taskdb.get_task(dep)?
+                                        {
+                                            let dep_pending = matches!(
+                                                match dep_taskmap.get("status") {
+                                                    Some(tm) => Some(Status::from_taskmap(tm)),
+                                                    None => None,
+                                                },
+                                                Some(Status::Pending)
+                                            );
+                                            is_pending_cache.insert(dep, dep_pending);
+                                            dep_pending
+                                        } else {
+                                            false
+                                        }
+                                    };
+                                    proof { assert(dep_pending == pending_task(t0, dep)); }
+                                    if dep_pending {
+                                        dm.add_dependency(u, dep);
+                                        proof { lemma_dm_add(w0, t0, e1, ii, it_p.seq(), jj, (u, dep)); }
+                                    }
+                                    else {
+                                        proof { lemma_dm_skip(w0, t0, e1, ii, it_p.seq(), jj); }
+                                    }
+                                }
+                                else {
+                                    proof { assert(dep_target(kk) is None); lemma_dm_skip(w0, t0, e1, ii, it_p.seq(), jj); }
+                                }
+                            }
+                            else {
+                                proof { assert(dep_target(kk) is None); lemma_dm_skip(w0, t0, e1, ii, it_p.seq(), jj); }
+                            }
+                        }
+                        proof {
+                            assert(exists|keys: Seq<TaskKey>| keys_listed(t0[u], keys) && #[trigger] dm_complete(w0, t0, dm.edges@, ii, keys, keys.len() as int));
+                            let keys = choose|keys: Seq<TaskKey>| keys_listed(t0[u], keys) && #[trigger] dm_complete(w0, t0, dm.edges@, ii, keys, keys.len() as int);
+                            lemma_dm_next(w0, t0, dm.edges@, ii, keys);
+                        }
+                    }
+                    else {
+                        proof { lemma_dm_none(w0, t0, dm.edges@, ii); }
+                    }
+                }
+                else {
+                    proof { lemma_dm_none(w0, t0, dm.edges@, ii); }
+                }
+            }
+            proof {
+                assert(exists|n: int| n >= w0.len() && #[trigger] dm_complete(w0, t0, dm.edges@, n, no_keys(), 0));
+                let n = choose|n: int| n >= w0.len() && #[trigger] dm_complete(w0, t0, dm.edges@, n, no_keys(), 0);
+                lemma_dm_done(w0, t0, dm.edges@, n);
+            }
+            self.depmap = Some(Arc::new(dm));
+        }
+        Ok(self.depmap.as_ref().unwrap().clone())
+    }
+//@end
 }
